@@ -325,5 +325,5 @@ def replay(ctx, case):
 
 def run(ctx):
     q = ctx.quick
-    ctx.hyp("dataset", dataset_case(), check_dataset, 40 if q else 150)
-    ctx.hyp("fault", fault_case(), check_fault, 25 if q else 100)
+    ctx.hyp("dataset", dataset_case(), check_dataset, 90 if q else 250)
+    ctx.hyp("fault", fault_case(), check_fault, 40 if q else 150)
